@@ -1,5 +1,6 @@
 import HidVerif.Proofs.Guards
 import HidVerif.Proofs.WriteIntSpec
+import HidVerif.Proofs.CoreMain
 /-!
 # C04 — checked builds are memory safe, even with the stack exactly full
 
@@ -43,5 +44,26 @@ theorem write_int_footprint (p : Prog) (B : Nat) (hp : Placed p B)
     ∃ m', Reach (sphinx p) ⟨B + off_write_int, m⟩ (outs (decimalW (256 ^ p.w) v)) ⟨ra, m'⟩ ∧
       Same p.w m m' (F - p.w - (digits (absW (256 ^ p.w) v)).length) (F - p.w) :=
   write_int_spec p B hp m F v ra r0 r1 r2 hv hFM hFsz hroom h7 hr harg hra
+
+/-! ## The sequential integer core: the stack check is exact -/
+
+/-- **C04 on the core**: a checked build either has room for the frame peak (then
+`C01.core_semantic_preservation` applies: every access stays inside the frame, which is what its
+proof establishes instruction by instruction) or reports `stack_overflow` before executing any
+statement — there is no third possibility, for any stack size (including 0) and word size. -/
+theorem core_stack_check_exact (cf : Core.Config) (body : Core.S) (hw : 2 ≤ cf.w) (hck : cf.checked = true)
+    (hB : Core.funcLen cf.checked body + stdlibLength < 256 ^ cf.w)
+    (hSE : 5 * cf.w + cf.stackWords * cf.w + cf.w < 256 ^ cf.w)
+    (hsmall : (cf.stackWords + 1) * cf.w < Core.pkS cf.w cf.w body) (hpkM : Core.pkS cf.w cf.w body < 256 ^ cf.w) :
+    ∃ mEnd, Exec (sphinx (Core.coreProg cf body)) (Core.coreInit cf body)
+      [Ev.flag "stack_overflow", Ev.flag "error"] ⟨tntPc (Core.funcLen cf.checked body), mEnd⟩ :=
+  let ⟨m, h, _⟩ := Core.core_overflow cf body hw hck hB hSE hsmall hpkM
+  ⟨m, h⟩
+
+/-- the digit buffer the compiler accounts for (`(8w-1)·30103/100000 + 1` bytes) is long enough for
+the decimal form of every word value, at every word size (D4 cannot recur for any `w`) -/
+theorem write_int_buffer_sufficient (w : Nat) (hw : 1 ≤ w) (v : Nat) (hv : v < 256 ^ w) :
+    (digits (absW (256 ^ w) v)).length ≤ (8 * w - 1) * 30103 / 100000 + 1 :=
+  digits_absW_le w hw v hv
 
 end HidVerif.Props.C04
